@@ -1,5 +1,6 @@
 #include "cry.h"
 #include "hashbuffer.h"
+#include "../wverif.h"
 #include <chrono>
 #include <string>
 #include <iostream>
@@ -30,6 +31,7 @@ fsize:文件大小
 void hmac::getres(u8_t hashtype, u8_t *key, FILE *fp, size_t fsize)
 {
     // 准备数据
+    WV_GHOST(wv_flen0 = fp->len - fp->pos;)
     Hashmaster *hashmaster = hf.getHasher(hf.getType(hashtype));
     const u8_t block = hashmaster->getblen();
     length = hashmaster->gethlen();
@@ -41,11 +43,17 @@ void hmac::getres(u8_t hashtype, u8_t *key, FILE *fp, size_t fsize)
     for (int i = 0; i < block; ++i)
         h1[i] = key1[i] ^ ipad;
     auto boundfunc = bind(&AbsResultPrint::printpercentage, res_printer, std::placeholders::_1, std::placeholders::_2, fsize == 0 ? 1 : fsize);
+    WV_ASSERT("[C08,C06] inner pad block is (key || 0^48) xor 0x36 (RFC 2104, B = 64)", block == 64 && h1[wv_g] == ((wv_g < 16 ? key[wv_g] : 0) ^ 0x36));
     buf = new filebuffer64(fp, boundfunc, h1);
     hashmaster->getFileHash(buf, &h2[block], boundfunc);
+    WV_ASSERT("[C08,C05] inner hash covers the pad block and then the file from its position to its end, nothing else",
+              wv_hl_fr == ((64 + wv_flen0) & 63) && wv_hl_ftotal == 512ull * ((64 + wv_flen0) >> 6) && fp->pos == fp->len && wv_hl_out == &h2[64]);
     for (int i = 0; i < block; ++i)
         h2[i] = key1[i] ^ opad;
+    WV_ASSERT("[C08,C06] outer pad block is (key || 0^48) xor 0x5c", h2[wv_g] == ((wv_g < 16 ? key[wv_g] : 0) ^ 0x5c));
     hashmaster->getStringHash(h2, block + length, hmac_res);
+    WV_ASSERT("[C08] outer hash is over the outer pad block followed by the inner digest (64 + L bytes) and yields the tag",
+              wv_hl_fptr == h2 + 64 && wv_hl_fr == this->length && wv_hl_ftotal == 512 && wv_hl_out == this->hmac_res);
     // 清理数据
     delete[] key1, h1, h2;
     delete buf, hashmaster;
@@ -62,6 +70,7 @@ fsize:文件大小
 void hmac::gethmac(u8_t hashtype, u8_t *key, FILE *fp, u8_t *hmac_out, size_t fsize)
 {
     getres(hashtype, key, fp, fsize);
+    WV_GHOST(WV_SNAP_TAG(this->hmac_res, this->length);)
     memcpy(hmac_out, hmac_res, length);
     delete[] hmac_res;
 }
@@ -77,6 +86,7 @@ return:校验是否成功
 bool hmac::cmphmac(u8_t hashtype, u8_t *key, FILE *fp, const u8_t *hmac_out, size_t fsize)
 {
     getres(hashtype, key, fp, fsize);
+    WV_GHOST(WV_SNAP_TAG(this->hmac_res, this->length);)
     for (int i = 0; i < length; ++i)
         if (hmac_out[i] != hmac_res[i])
         {
@@ -98,6 +108,7 @@ void hmac::writeFileHmac(u8_t hashtype, FILE *fp, u8_t *key, u8_t hashMark, u8_t
 {
     fseek(fp, hashMark, SEEK_SET);
     getres(hashtype, key, fp, fsize);
+    WV_GHOST(WV_SNAP_TAG(this->hmac_res, this->length);)
     fseek(fp, writeMark, SEEK_SET);
     fwrite(hmac_res, 1, length, fp);
     delete[] hmac_res;
